@@ -153,7 +153,29 @@ Section FullExec.
   Variable K : Fld.
   Definition forward_fullX (sc : scene K) (ie9 im9 : option (T9 K)) (s : state K) : state K := freezeS K sc (forward_full K sc ie9 im9 s).
   Definition backward_fullX (sc : scene K) (ie9 im9 : option (T9 K)) (s : state K) : state K := freezeS K sc (backward_full K sc ie9 im9 s).
-  Definition forward_lossyX (sc : scene K) (e m : option (T9 K * T9 K)) (s : state K) : state K := freezeS K sc (forward_lossy K sc e m s).
+  (* executed conductive tiers: the per-cell matrices are tabulated level by level (M1, M2, M1^-1, A, B) so that every entry is computed once;
+     inside the box and for r, s < 3 a tabulated tensor reads back the tensor it was built from (YeeExec_proofs.freeze_in) *)
+  Definition freeze9 (nx ny nz : nat) (T : T9 K) : T9 K :=
+    let tabs := map (fun q => tab3 nx ny nz (T (q / 3)%nat (q mod 3)%nat)) (seq 0 9) in
+    fun r s i j k => if (r <? 3) && (s <? 3) && (i <? nx) && (j <? ny) && (k <? nz) then get3 0 (nth (3 * r + s) tabs []) i j k else 0.
+  Definition mats_exec (sc : scene K) (etaf : car K) (o : option (T9 K * T9 K)) : option (T9 K * T9 K) :=
+    match o with
+    | None => None
+    | Some (T, sg) =>
+        let fz := freeze9 (nx K sc) (ny K sc) (nz K sc) in
+        let M1 := fz (lossy_M1 K sc etaf T sg) in let M2 := fz (lossy_M2 K sc etaf T sg) in
+        let I1 := fz (m9inv K M1) in
+        Some (fz (m9mul K I1 M2), fz (m9lin K (cn K sc) (fz (m9mul K I1 T)) 0 (m9id K)))
+    end.
+  Definition upd_E_mats (sc : scene K) (sim : bool) (ab : option (T9 K * T9 K)) (s : state K) : state K :=
+    match ab with Some (A, B) => update_E_AB K sc sim A B s | None => update_E K sc sim s end.
+  Definition upd_H_mats (sc : scene K) (sim : bool) (ab : option (T9 K * T9 K)) (s : state K) : state K :=
+    match ab with Some (A, B) => update_H_AB K sc sim A B s | None => update_H K sc sim s end.
+  Definition forward_mats (sc : scene K) (abE abH : option (T9 K * T9 K)) (s : state K) : state K :=
+    let s2 := upd_H_mats sc true abH (upd_E_mats sc true abE s) in
+    mkSt (S (tstep s)) (fE s2) (fH s2) (psiE s2) (psiH s2).
+  Definition forward_lossyX (sc : scene K) (e m : option (T9 K * T9 K)) (s : state K) : state K :=
+    freezeS K sc (forward_mats sc (mats_exec sc (eta0 K sc) e) (mats_exec sc (1 / eta0 K sc) m) s).
   (* tensor from a row-major list of nine nested-list arrays *)
   Definition T9_of (nx ny nz : nat) (d : car K) (l : list (L3 (car K))) : T9 K :=
     fun r s => of3 d nx ny nz (nth (3 * r + s) l []).
